@@ -237,8 +237,9 @@ class Interp:
         """record + discharge an obligation under the current path condition."""
         self.obligations.append({'name': name, 'goal': to_z3(goal), 'pc': list(self.pc),
                                  'info': info or {}, 'flags': set(self.flags)})
-        # continue the path as if it held (avoid cascades)
-        self.add_pc(goal)
+        # continue the path as if it held (avoid cascades) — unless it is plainly false
+        if concrete_bool(to_z3(goal)) is not False:
+            self.add_pc(goal)
 
     # ------------------------------------------------------------------ raising
     def raise_(self, typ, *args):
